@@ -61,7 +61,14 @@ def run_extractor(ctx):
 def check_facts(ctx, facts, keys):
     with open(os.path.join(ctx.root, 'tools', 'expect', 'facts.json')) as f:
         expect = json.load(f)
+    expanded = []
     for k in keys:
+        if k.endswith('*'):
+            ks = sorted(set(x for x in list(facts) + list(expect) if x.startswith(k[:-1])))
+            expanded += ks
+        else:
+            expanded.append(k)
+    for k in expanded:
         ok = k in facts and k in expect and facts[k] == expect[k]
         ctx.obligations.append(('fact:' + k, ok))
         if not ok:
@@ -238,6 +245,9 @@ def run_one(ctx, exe, run, seed, tier, tag, replay_ops=None):
     d = os.path.join(ctx.scratch, '%s-%s' % (run['cmd'], tag))
     os.makedirs(d, exist_ok=True)
     cmd = [exe, run['cmd'], '-seed', str(seed), '-tier', tier, '-out', d] + run.get('args', [])
+    cdir = os.path.join(ctx.root, 'corpus', run.get('corpus', ctx.pid))
+    if replay_ops is None and os.path.isdir(cdir):
+        cmd += ['-corpus', cdir]
     if replay_ops is not None:
         rp = os.path.join(d, 'replay-ops.txt')
         with open(rp, 'w') as f:
